@@ -28,7 +28,8 @@ COMMA = {"k": "sep", "s": ","}
 ITEMS = [num_item(5), num_item(-12), num_item(0), num_item(40000, "L"), num_item(-70000, "L"), num_item(2, "S"), num_item(-3, "S"),
          num_item(7, "D"), num_item(-8, "D"), str_item([]), str_item(S("a")), str_item(S("hello world")),
          str_item(S("x" * 13)), str_item(S("y" * 14)), str_item(S("z" * 15)), str_item(S("w" * 29)),
-         str_item(S("a") + [13] + S("b")), str_item(S("ab") + [10] + S("cde")), str_item([13]), str_item(S("q") + [10])]
+         str_item(S("a") + [13] + S("b")), str_item(S("ab") + [10] + S("cde")), str_item([13]), str_item(S("q") + [10]),
+         dict(num_item(0, "S"), neg0=True), dict(num_item(0, "D"), neg0=True)]
 
 
 def lists(rng, tier):
@@ -48,6 +49,8 @@ def lists(rng, tier):
 def expr_of(it):
     if it["k"] == "num":
         v, ty = it["v"], it.get("ty", "I")
+        if it.get("neg0"):
+            return "-ZS!" if ty == "S" else "-ZD#"       # a negative zero (the variables are never assigned): prints as 0
         if ty in ("I", "L"):
             return str(v)
         return ("%d.0" % v) + ("#" if ty == "D" else "")
